@@ -467,6 +467,7 @@ type Lemma struct {
 }
 
 type ContractSet struct {
+	Effects   map[string]string        // pkgpath.funcname -> pure|noop (declared classification of unverified helpers)
 	Ghosts    map[string]string        // pkgpath.name -> type expression
 	FuncTypes map[string]*FuncContract // contracts of named function types; key pkgpath.TypeName
 	Funcs  map[string]*FuncContract // key: pkgpath + "." + name
@@ -477,13 +478,13 @@ type ContractSet struct {
 }
 
 func NewContractSet() *ContractSet {
-	return &ContractSet{Ghosts: map[string]string{}, FuncTypes: map[string]*FuncContract{}, Funcs: map[string]*FuncContract{}, Pures: map[string]*PureFunc{}, Ifaces: map[string]*FuncContract{}}
+	return &ContractSet{Effects: map[string]string{}, Ghosts: map[string]string{}, FuncTypes: map[string]*FuncContract{}, Funcs: map[string]*FuncContract{}, Pures: map[string]*PureFunc{}, Ifaces: map[string]*FuncContract{}}
 }
 
 var (
 	tagRe     = regexp.MustCompile(`^(\w[\w-]*)(\[[A-Za-z0-9_, ]+\])?\s*(.*)$`)
 	assertRe  = regexp.MustCompile(`^in\s+(\S+)\s+at\s+"(.*?)"\s*:\s*(.*)$`)
-	keywords  = map[string]bool{"assert": true, "ghost": true, "functype": true, "func": true, "loop": true, "pure": true, "lemma": true, "requires": true, "ensures": true, "modifies": true, "invariant": true, "decreases": true, "let": true, "iface": true, "assume-contract": true, "axiom": true}
+	keywords  = map[string]bool{"effect": true, "assert": true, "ghost": true, "functype": true, "func": true, "loop": true, "pure": true, "lemma": true, "requires": true, "ensures": true, "modifies": true, "invariant": true, "decreases": true, "let": true, "iface": true, "assume-contract": true, "axiom": true}
 	pureRe    = regexp.MustCompile(`^(\w+)\s*\((.*?)\)\s*([^=]*?)\s*(?:=\s*(.*))?$`)
 	loopRe    = regexp.MustCompile(`^(\d+)\s+in\s+(\S+)(?:\s+at\s+"(.*)")?\s*$`)
 	lemmaRe   = regexp.MustCompile(`^(\w+)\s*(?:\(([^)]*)\))?\s*((?:[\w-]+=\S+\s*)*):\s*(.*)$`)
@@ -558,6 +559,17 @@ func (cs *ContractSet) LoadFile(path, pkgPath string, trusted bool) error {
 	}
 	for _, r := range raws {
 		switch r.kw {
+		case "effect":
+			f := strings.Fields(r.text)
+			if len(f) != 2 || (f[1] != "pure" && f[1] != "noop") {
+				return fmt.Errorf("%s:%d: effect <func> pure|noop", path, r.line)
+			}
+			key := pkgPath + "." + f[0]
+			if strings.Contains(f[0], "/") {
+				key = f[0]
+			}
+			cs.Effects[key] = f[1]
+			curF, curL = nil, nil
 		case "ghost":
 			f := strings.Fields(r.text)
 			if len(f) < 2 {
